@@ -191,7 +191,12 @@ def run_r2(ctx, rule):
     rs = [bb for bb, t2 in fn.calls() if util.cname(t2).endswith("Vec::resize")]
     for rb in rs:
         g2 = guards.holds(fn, rb, lambda fa: fa[0] == "cmp" and fa[1] in ("Lt", "Gt", "Le", "Ge") and mentions(fa, lambda x: x[0] == "call" and norm(x[2]).endswith("Vec::len")))
-        rule.check(bool(g2), "request_more/resize-guard", "the buffer grows only when window + chunk does not fit (%s)" % (guards.show_fact(fn, g2[1]) if g2 else "unguarded resize"), fn.loc(rb))
+        # `resize(len.max(target), 0)` never shortens the buffer either: the test is inside the `max`
+        tgt = sy.operand(fn.term(rb)["args"][1]) if len(fn.term(rb)["args"]) > 1 else None
+        from . import scanidx as _SI
+        tgt = _SI.peel(sy, tgt) if tgt is not None else None
+        by_max = tgt is not None and tgt[0] == "call" and norm(tgt[2]).rsplit("::", 1)[-1] == "max" and any(_SI.peel(sy, a)[0] == "call" and norm(_SI.peel(sy, a)[2]).endswith("Vec::len") for a in tgt[3])
+        rule.check(bool(g2) or by_max, "request_more/resize-guard", "the buffer grows only when window + chunk does not fit (%s)" % (guards.show_fact(fn, g2[1]) if g2 else "max with the current length" if by_max else "unguarded resize"), fn.loc(rb))
     if not rs:
         rule.bad("request_more/no-resize", "anchor missing: Vec::resize in request_more", kind="anchor-missing")
 
